@@ -1,4 +1,4 @@
-use crate::{ActTask, Result, TaskState, Workflow, scheduler::Context};
+use crate::{ActTask, NodeKind, Result, TaskState, Workflow, scheduler::Context};
 
 impl ActTask for Workflow {
     fn init(&self, ctx: &Context) -> Result<()> {
@@ -44,12 +44,21 @@ impl ActTask for Workflow {
         let state = task.state();
         if state.is_running() {
             // the workflow is reviewed by whatever ends beneath it without a successor: the last step, but also an
-            // act that `setup` started next to the steps. It is done when none of them is open any more
-            // (a hook act does not report back when it ends: it is not waited for)
-            let open = ctx.proc.tasks().iter().any(|t| {
+            // act that `setup` started next to the steps. It is done when the steps have come to their end - the
+            // newest step beneath it has ended (a step left behind by a backward jump is not waited for) - and no
+            // such act is open any more (nor is a hook act waited for)
+            let tasks = ctx.proc.tasks();
+            let newest_step = tasks
+                .iter()
+                .filter(|t| {
+                    t.is_kind(NodeKind::Step) && t.parent().is_some_and(|p| p.id == task.id)
+                })
+                .max_by_key(|t| t.timestamp);
+            let open = tasks.iter().any(|t| {
                 !t.state().is_completed()
                     && !t.is_event_processed()
                     && t.parent().is_some_and(|p| p.id == task.id)
+                    && (t.is_kind(NodeKind::Act) || newest_step.is_some_and(|s| s.id == t.id))
             });
             if !open {
                 task.set_state(TaskState::Completed);
